@@ -1033,7 +1033,7 @@ public:
       {
          clear(rhs.size());
 
-         if(rhs.size() > 0)
+         if(rhs.num() > 0)
          {
             SVSetBaseArray::operator=(rhs);
             set = rhs.set;
@@ -1041,8 +1041,8 @@ public:
             DLPSV* ps;
             DLPSV* newps;
 
-            void* delta0 = &(*(static_cast<SVSetBaseArray*>(this)))[0];
-            void* delta1 = &(*(static_cast<SVSetBaseArray*>(const_cast<SVSetBase<R>*>(&rhs))))[0];
+            void* delta0 = static_cast<SVSetBaseArray*>(this)->get_ptr();
+            void* delta1 = static_cast<SVSetBaseArray*>(const_cast<SVSetBase<R>*>(&rhs))->get_ptr();
             ptrdiff_t delta = reinterpret_cast<char*>(delta0) - reinterpret_cast<char*>(delta1);
 
             for(ps = rhs.list.first(); ps; ps = rhs.list.next(ps))
@@ -1069,7 +1069,7 @@ public:
       {
          clear(rhs.size());
 
-         if(rhs.size() > 0)
+         if(rhs.num() > 0)
             this->add(rhs);
       }
 
